@@ -28,7 +28,8 @@ PROPS["C01"] = dict(units=["ark_encoding", "ark_element"], assumptions=[A_ARK1, 
 M_GROUP = "M-GROUP: valid points under te_add modulo spec_eq form a group of order r; te_add complete for a=-1, d=3021; smul additive (statements about spec functions)"
 PROPS["C04"] = dict(units=["ark_ops", "ark_encoding"], assumptions=[A_ARK2, M_GROUP, A_WF, A_STD],
     explanation="each operator form ensures to_affine(result) == to_affine(te_add/te_sub/te_neg(views of operands)): the reference group law in canonical affine form",
-    not_decided=["termination of operator forwarding chains (R12)"])
+    not_decided=["termination of operator forwarding chains (R12)",
+                 "native Group::double_in_place / Group::double for Element (src/ark_curve/element.rs: forwards to the inner arkworks doubling and returns `&mut Self`, a signature this Verus rejects): not under contract, bounded probe curve.ops (watched file); the minimal backend's Element::double is under contract"])
 PROPS["C05"] = dict(units=["ark_ops"], assumptions=[A_ARK2, M_GROUP, A_WF, A_STD],
     explanation="each Mul/MulAssign form ensures to_affine(result) == to_affine(ark_mul(k, view(point))) where ark_mul is arkworks' scalar multiplication (assumed projectively equal to the k-fold sum); Element::vartime_multiscalar_mul: for iterators of any lengths the result is the left-to-right sum, from the identity, of terms that are (in canonical affine form) the reference products [c_i] P_i of exactly the pairs the zip yields (loop invariant after R32; the generic VariableBaseMSM impl is arkworks code over the operators proved here)")
 
